@@ -30,6 +30,10 @@ type Violation struct {
 	Clause  string `json:"clause"`            // which clause of the property failed
 	Trigger string `json:"trigger,omitempty"` // predicate over the failing input, computed by the property (known-finding key)
 	Detail  string `json:"detail"`            // expected vs observed, human readable
+	// PreConfirmed > 0: the property confirmed the violation itself (e.g. by re-running the schedule in
+	// fresh processes, because a race detector prints a given report once per process); the engine then
+	// does not re-run the case in-process.
+	PreConfirmed int `json:"-"`
 }
 
 type recordedViolation struct {
@@ -247,7 +251,10 @@ func (c *Ctx) Case(descFn func() any, fn Check) {
 	}
 	// confirm: the same case must fail the same clause again, 4 more times
 	confirmed := 1
-	for i := 0; i < 4; i++ {
+	if v.PreConfirmed > 0 {
+		confirmed = v.PreConfirmed
+	}
+	for i := 0; i < 4 && v.PreConfirmed == 0; i++ {
 		v2 := c.runOnce(fn, true)
 		if v2 != nil && v2.Clause == v.Clause {
 			confirmed++
